@@ -283,7 +283,8 @@ def step (st : DState) (line : String) : DState × String :=
       let net := st.net
       let a := iterState net k.toNat! (NetD.bitsOf bits)
       let n := net.sNodes.length
-      let ok := consistentB net false (!·) prim2 a (evalAll net false (!·) prim2 a)
+      -- acceptance flag over ALL iterates 0..k (audit-2 finding 7): hypothesis `iterAccepted` of C01.cycle_iter_iterState
+      let ok := iterAccepted net k.toNat! (NetD.bitsOf bits)
       let cap := (evalCaptures net a).map fun o => match o with
         | some true => "1" | some false => "0" | none => "-"
       let nxt := (List.range n).map fun j => if a j then "1" else "0"
